@@ -23,10 +23,16 @@ RULE = (
 RULE += (
     ' Added after seeded round 9: light-cone trees whose halo rows are not in particle-file order, loaded through four filters; header ppd stored as NP**(1/3.) in every third tree.'
 )
+RULE += (
+    ' Added after seeded round 10: call history -- catalogues loaded EARLIER and kept alive are re-verified after LATER loads (first loads of every tree re-verified at the end of the tree and again after the next tree; '
+    'dedicated sequences with equal halo-row count and subsample letter but different offsets: A+B then B only, cleaned then uncleaned, the same call twice, another simulation with equal halo counts, '
+    'two filters keeping equally many rows, single files): index columns and every subsample column against a private snapshot, then the full oracle again.'
+)
 ASSUMPTIONS = [
     'float32 pos/vel within 1 ulp of the reference decoding; integer fields exact; lagr_pos within 4 ulp(BoxSize)',
     'a load that raises yields no catalogue: recorded under load_errors (C02/C03 own "must not fail"); fewer than 80% successful loads makes the run inconclusive',
     'python-blosc is replaced by a zlib-based stand-in for blsc-compressed inputs',
+    'a catalogue object the caller keeps and does not modify is still "a loaded catalog": later loads (of anything) must leave its index columns and subsample table as they were when it was returned and verified',
 ]
 
 PIDF = ['pid', 'lagr_pos', 'tagged', 'density', 'lagr_idx', 'packedpid']
@@ -167,9 +173,67 @@ def resolved_AB(sub):
     return ab or ['A']
 
 
-def one_tree(run, rng, k, nconf):
+class Kept:
+    """An earlier catalogue, kept alive by the caller, with a private copy of everything the statement speaks about
+    (index columns, subsample columns, the two table lengths), taken right after the full oracle accepted it."""
+
+    MAXBYTES = 64 << 20
+
+    def __init__(self, cat, desc, recheck=None):
+        self.cat, self.desc, self.recheck = cat, desc, recheck
+        self.nh, self.ns = len(cat.halos), len(cat.subsamples)
+        self.index = {c: np.array(cat.halos[c], copy=True) for c in cat.halos.colnames if c.startswith(('npstart', 'npout'))}
+        self.sub = {c: np.array(cat.subsamples[c], copy=True) for c in cat.subsamples.colnames}
+        self.nbytes = sum(a.nbytes for a in self.index.values()) + sum(a.nbytes for a in self.sub.values())
+        self.later = []
+
+    @classmethod
+    def take(cls, cat, desc, recheck=None):
+        k = cls(cat, desc, recheck)
+        return k if k.nbytes <= cls.MAXBYTES else None
+
+    def reverify(self, run, full=False):
+        """True if a violation was raised.  Reference = the snapshot (values the full oracle accepted); a subsample value that
+        differs from the snapshot is handed to the full oracle, which allows the documented tolerance."""
+        cat = self.cat
+        run.ev()
+        run.count('earlier_catalogues_reverified')
+        run.count('later_loads_between_load_and_reverification', len(self.later))
+        wit = dict(earlier_load=self.desc, later_loads=len(self.later), last_later_load=(self.later[-1] if self.later else None))
+        if len(cat.halos) != self.nh or len(cat.subsamples) != self.ns:
+            return run.violation('earlier-catalogue-changed-by-later-load', dict(what='table length', halos=[self.nh, len(cat.halos)], subsamples=[self.ns, len(cat.subsamples)], **wit))
+        for c, was in self.index.items():
+            now = np.asarray(cat.halos[c]) if c in cat.halos.colnames else None
+            if now is None or not catoracle.eq_nan(now, was):
+                w = dict(what='index column', column=c, **wit)
+                if now is not None and now.shape == was.shape:
+                    i = int(np.nonzero(now != was)[0][0])
+                    w.update(row=i, was=int(was[i]), now=int(now[i]), rows_changed=int((now != was).sum()))
+                return run.violation('earlier-catalogue-changed-by-later-load', w)
+        changed = [c for c, was in self.sub.items() if c not in cat.subsamples.colnames or not catoracle.eq_nan(np.asarray(cat.subsamples[c]), was)]
+        changed += [c for c in cat.subsamples.colnames if c not in self.sub]
+        if changed:
+            run.count('earlier_catalogue_subsample_values_differ_from_snapshot')
+            if self.recheck is None or not self.recheck(self.cat):
+                # (no oracle at hand, or the new values are also within the tolerance: still, nobody but a later load touched them)
+                return run.violation('earlier-catalogue-changed-by-later-load', dict(what='subsample column', columns=changed, **wit))
+            return True
+        if full and self.recheck is not None:
+            run.count('earlier_catalogues_reverified_by_full_oracle')
+            return bool(self.recheck(self.cat))
+        return False
+
+
+def reverify_all(run, kept, full=False):
+    for kp in kept:
+        if kp.later:
+            kp.reverify(run, full=full)
+
+
+def one_tree(run, rng, k, nconf, carry=None):
     knobs = tree_knobs(rng, k)
     truth = gen_catalog.make_tree(rng, **knobs)
+    kept = []
     try:
         nt = nontrivial_tree(truth)
         for c in range(nconf):
@@ -187,6 +251,8 @@ def one_tree(run, rng, k, nconf):
             run.ev()
             cat, err = catoracle.load(path, **kw)
             run.count('loads')
+            for kp in kept + (carry or []):
+                kp.later.append(desc)
             if err is not None:
                 run.count('load_errors')
                 run.violation('subsample-load-fails', dict(error=f'{type(err).__name__}: {err}'[:200], **desc))  # every generated configuration is a documented one
@@ -210,6 +276,19 @@ def one_tree(run, rng, k, nconf):
             if catoracle.check_subsamples(run, cat, truth, slabs, kw['cleaned'], resolved_AB(kw['subsamples']), masks=masks, desc=desc, passthrough=bool(kw.get('passthrough'))):
                 if run.too_many():
                     return
+            elif len(kept) < 4:
+                # call history: the first catalogues of the tree stay alive (as a caller's would) while the remaining ones are loaded
+                kp = Kept.take(cat, desc)
+                if kp is not None:
+                    kept.append(kp)
+        # the catalogues loaded first still index their own particles, and so do those kept from the previous tree
+        reverify_all(run, kept)
+        reverify_all(run, carry or [])
+        if carry is not None:
+            carry[:] = kept[:2]
+            for kp in carry:
+                kp.later = []
+                kp.desc = dict(kp.desc, kept_across_trees=True)
     finally:
         shutil.rmtree(truth['root'], ignore_errors=True)
 
@@ -217,6 +296,7 @@ def one_tree(run, rng, k, nconf):
 def lc_trees(run, rng, n):
     for k in range(n):
         L = gen_catalog.make_lc_tree(rng, H=int(rng.integers(0, 60)), compression=[None, 'zlib', 'blsc'][k % 3], unordered=bool(k % 2))
+        kept = []
         try:
             # filtered loads (rows dropped at the start, the end, in between): each kept row's slice still holds the particles its
             # stored start/count address in the particle file
@@ -234,7 +314,10 @@ def lc_trees(run, rng, n):
                 run.count('filtered_light_cone_loads')
                 mask = np.arange(L['H']) % 3 != 0 if fj == 0 else (np.arange(L['H']) >= L['H'] // 2 if fj == 1 else (np.arange(L['H']) < max(1, L['H'] - 2) if fj == 2 else L['raw']['N'] % 2 == 0))
                 run.nt(('lc-filter', k, fj))
-                catoracle.check_lc_subsamples(run, cat, L, mask=mask, desc=desc)
+                for kp in kept:
+                    kp.later.append(desc)
+                if not catoracle.check_lc_subsamples(run, cat, L, mask=mask, desc=desc):
+                    kept.append(Kept(cat, desc, recheck=lambda c, mask=mask, desc=desc: catoracle.check_lc_subsamples(run, c, L, mask=mask, desc=desc, key_prefix='earlier-lc-catalogue')))
             for sub in (True, dict(A=True, pid=True), dict(A=True, B=True, pos=True), dict(rv=True)):
                 for fields in ('DEFAULT_FIELDS', 'all', ['N', 'npstartA', 'npoutA', 'x_L2com']):
                     desc = dict(layout='light_cone', H=L['H'], subsamples=sub if sub is True else dict(sub), fields=fields)
@@ -258,9 +341,86 @@ def lc_trees(run, rng, n):
                         want = {'pos', 'vel'}
                     if set(cat.subsamples.colnames) != want:
                         run.violation('lc-subsample-columns', dict(got=cat.subsamples.colnames, expected=sorted(want), **desc))
-                    catoracle.check_lc_subsamples(run, cat, L, desc=desc)
+                    for kp in kept:
+                        kp.later.append(desc)
+                    if not catoracle.check_lc_subsamples(run, cat, L, desc=desc):
+                        kept.append(Kept(cat, desc, recheck=lambda c, desc=desc: catoracle.check_lc_subsamples(run, c, L, desc=desc, key_prefix='earlier-lc-catalogue')))
+            # call history: every catalogue of this light cone is still what it was when it was returned
+            reverify_all(run, kept, full=True)
         finally:
             shutil.rmtree(L['root'], ignore_errors=True)
+
+
+def history(run, rng, ntree):
+    """Call history.  Per tree: a sequence of loads that agree in the number of halo rows and in a subsample letter but differ in
+    the offsets they produce; every catalogue is kept; after each load all earlier ones are compared with their snapshots, and at
+    the end each is put through the full oracle once more."""
+    from .c03 import MaskFilter
+
+    for k in range(ntree):
+        nslab = int(rng.integers(2, 5))
+        inds = list(range(nslab)) if k % 2 == 0 else sorted(int(x) for x in rng.choice(np.arange(0, 30), nslab, replace=False))
+        hps = [int(rng.integers(1, 20)) for _ in inds]
+        knobs = dict(slab_inds=inds, halos_per_slab=hps, box=float(rng.choice([1.0, 500.0, 2000.0])), compression=[None, 'zlib'][k % 2], gap_prob=0.5, zero_part_prob=0.2, cleaned_away_prob=0.25, merge_prob=0.6, trailing=bool(k % 2), clean_layout=[1, 2, 3, 4][k % 4])
+        T1 = gen_catalog.make_tree(rng, **knobs)
+        T2 = gen_catalog.make_tree(rng, sim='SimB', **knobs)  # another simulation with the same halo count in every superslab
+        kept = []
+        try:
+            c0 = bool(k % 2)
+            s1 = inds[int(rng.integers(0, nslab))]
+            one = lambda T: os.path.join(T['path'], 'halo_info', f'halo_info_{s1:03d}.asdf')  # noqa
+            m1 = [rng.random(T1['slabs'][s]['H']) < 0.6 for s in inds]
+            m2 = [rng.permutation(m) for m in m1]  # other rows, equally many per superslab
+            AB, A, B = dict(A=True, B=True), dict(A=True), dict(B=True)
+            seq = [
+                ('A+B', T1, T1['path'], inds, c0, dict(AB, pos=True, pid=True), None),
+                ('B only', T1, T1['path'], inds, c0, dict(B, pos=True), None),
+                ('A only', T1, T1['path'], inds, c0, dict(A, vel=True, pid=True), None),
+                ('A+B, other cleaning', T1, T1['path'], inds, not c0, dict(AB, pid=True), None),
+                ('B only, other cleaning', T1, T1['path'], inds, not c0, dict(B, rv=True), None),
+                ('A+B again', T1, T1['path'], inds, c0, dict(AB, pos=True, pid=True), None),
+                ('other simulation, A+B', T2, T2['path'], inds, c0, dict(AB, pos=True), None),
+                ('other simulation, B only', T2, T2['path'], inds, not c0, dict(B, pid=True), None),
+                ('filter 1', T1, T1['path'], inds, c0, dict(AB, pos=True), m1),
+                ('filter 2, equally many rows', T1, T1['path'], inds, c0, dict(AB, pos=True), m2),
+                ('one file', T1, one(T1), [s1], c0, True, None),
+                ('one file, other simulation', T2, one(T2), [s1], c0, dict(AB, rv=True, pid=True), None),
+                ('one file, B only', T1, one(T1), [s1], not c0, dict(B, pos=True, vel=True), None),
+            ]
+            order = [int(i) for i in rng.permutation(len(seq))]
+            nt = nontrivial_tree(T1) and nontrivial_tree(T2)
+            for step, j in enumerate(order):
+                name, T, path, slabs, cleaned, sub, masks = seq[j]
+                kw = dict(cleaned=cleaned, subsamples=sub, fields=['all', ['N', 'x_com'], 'DEFAULT_FIELDS'][(k + j) % 3])
+                desc = dict(history_tree=k, step=step, load=name, slab_inds=inds, halos_per_slab=hps, slabs_loaded=slabs, filter_kept=([int(m.sum()) for m in masks] if masks else None), **{a: (b if not isinstance(b, dict) else dict(b)) for a, b in kw.items()})
+                if masks:
+                    kw['filter_func'] = MaskFilter(masks)
+                run.progress(desc)
+                run.ev()
+                cat, err = catoracle.load(path, **kw)
+                run.count('loads')
+                run.count('history_loads')
+                for kp in kept:
+                    kp.later.append(desc)
+                if err is not None:
+                    run.count('load_errors')
+                    run.violation('subsample-load-fails', dict(error=f'{type(err).__name__}: {err}'[:200], **desc))
+                    continue
+                run.count('loads_ok')
+                chk = lambda c, prefix='subsample', T=T, slabs=slabs, cleaned=cleaned, sub=sub, masks=masks, desc=desc: catoracle.check_subsamples(run, c, T, slabs, cleaned, resolved_AB(sub), masks=masks, desc=desc, key_prefix=prefix)  # noqa
+                fresh_ok = not chk(cat)
+                # every catalogue loaded before this one is still what it was
+                for i, kp in enumerate(kept):
+                    if not kp.reverify(run) and nt:
+                        run.nt(('history', k, i, step))
+                if fresh_ok:
+                    kept.append(Kept(cat, desc, recheck=lambda c, chk=chk: chk(c, prefix='earlier-catalogue')))
+                if run.too_many():
+                    return
+            reverify_all(run, kept, full=True)
+        finally:
+            shutil.rmtree(T1['root'], ignore_errors=True)
+            shutil.rmtree(T2['root'], ignore_errors=True)
 
 
 def check(run):
@@ -269,11 +429,14 @@ def check(run):
     QUICK[0] = run.quick
     rng = run.rng(0)
     ntree, nconf = (24, 16) if run.quick else (300, 40)
+    carry = []
     for k in range(ntree):
-        one_tree(run, rng, k, nconf)
+        one_tree(run, rng, k, nconf, carry)
         if run.too_many():
             return
     lc_trees(run, rng, 4 if run.quick else 40)
+    if not run.too_many():
+        history(run, run.rng(1), 6 if run.quick else 60)
     catoracle.report_contracts(run)
     if not run.counters.get('contract_evaluations_new_indices'):
         run.note_inconclusive('in-situ contracts were never evaluated')
